@@ -69,6 +69,26 @@ def run(v):
                 n += 1
                 if n % stride == v.seed % stride:
                     f.write(json.dumps(p[1]) + "\n")
+    # the ignore-list calls taken apart (ignore / export / clear / import / lint), 4 calls deep
+    ri = common.tlc(os.path.join(SPEC, "mc", "MC_JsLinter.tla"), os.path.join(SPEC, "mc", "MC_JsLinter_ignorelist.cfg"),
+                    "c16_ign", workers=8, coverage=False, timeout=1800)
+    if ri.violated:
+        v.failure({"kind": "model", "invariant": ri.violated}, {"tlc_output": ri.output[-3000:]})
+    v.add_mc("MC_JsLinter/ignorelist", ri, "ignore_lint / export / clear / import (appends) / lint, 6 calls deep: AnswerIsCurrent, IgnoredStayHidden")
+    rm = common.tlc(os.path.join(SPEC, "mc", "MC_JsLinter.tla"), os.path.join(SPEC, "mc", "MC_JsLinter_dev_memo.cfg"),
+                    "c16_memo", workers=4, coverage=False, timeout=900)
+    if rm.violated != "AnswerIsCurrent":
+        raise common.ToolError("MC_JsLinter: the lint-memo deviation is not refuted (vacuous invariant)")
+    rg2 = common.tlc(os.path.join(SPEC, "mc", "MC_JsLinter.tla"), os.path.join(SPEC, "mc", "MC_JsLinter_gen_ignorelist.cfg"),
+                     "c16_gen2", workers=8, coverage=False, timeout=1800)
+    stride2 = 3 if thorough else 25
+    with open(cases, "a") as f:
+        for x in rg2.prints:
+            p = common.parse_print(x)
+            if p and p[0] == "CASE":
+                n += 1
+                if n % stride2 == v.seed % stride2:
+                    f.write(json.dumps(p[1]) + "\n")
     _, corp = corpus.harvest()
     trace = os.path.join(wd, "trace.ndjson")
     rc, out, err = common.run_hv(["c16", "--cases", cases, "--out", trace, "--seed", v.seed, "--corpus", corp,
